@@ -24,7 +24,7 @@ Print Assumptions C22_refuted_addnode_removepod.
    create: alloc, unlock, node fetched || RemoveNode: node empty -> removed ||
    create: workload recorded on the missing node (and it can no longer be listed). *)
 Theorem C22_refuted_create_removenode :
-  quiescent_bad W2 [(OCreate "n" "x", None); (ORemoveNode "n", None)] [0; 0; 0; 0; 0; 1; 1; 1; 1; 1; 1; 1; 0].
+  quiescent_bad W2 [(OCreate "n" "x", None); (ORemoveNode "n", None)] [0; 0; 0; 0; 0; 0; 1; 1; 1; 1; 1; 1; 1; 0].
 Proof. exact refuted_create_removenode. Qed.
 Print Assumptions C22_refuted_create_removenode.
 
